@@ -404,8 +404,8 @@ func (m *CSRMatrix) Transpose(ctx context.Context) (*CSRMatrix, error) {
 func (m *CSRMatrix) TransposeToCSC() *CSCMatrix {
 	return &CSCMatrix{
 		CSMatrix{
-			MajorDim: m.MinorDim,
-			MinorDim: m.MajorDim,
+			MajorDim: m.MajorDim,
+			MinorDim: m.MinorDim,
 			Entries:  m.Entries,
 		},
 	}
@@ -451,8 +451,8 @@ func (m *CSCMatrix) Transpose(ctx context.Context) (*CSCMatrix, error) {
 func (m *CSCMatrix) TransposeToCSR() *CSRMatrix {
 	return &CSRMatrix{
 		CSMatrix{
-			MajorDim: m.MinorDim,
-			MinorDim: m.MajorDim,
+			MajorDim: m.MajorDim,
+			MinorDim: m.MinorDim,
 			Entries:  m.Entries,
 		},
 	}
